@@ -329,7 +329,10 @@ class Program:
                     mod.imports[a.asname or a.name] = ("from", base, a.name)
 
     def _index_stmt(self, mod, st):
+        dead = getattr(getattr(self, "normalizer", None), "dead", ())
         if isinstance(st, (ast.FunctionDef, ast.AsyncFunctionDef)):
+            if f"{mod.name}:{st.name}" in dead:
+                return
             fi = FunctionInfo(st.name, f"{mod.name}.{st.name}", mod, None, st)
             mod.functions[st.name] = fi
             self._register_function(fi)
@@ -339,6 +342,8 @@ class Program:
             self.classes[ci.qualname] = ci
             for s in st.body:
                 if isinstance(s, (ast.FunctionDef, ast.AsyncFunctionDef)):
+                    if f"{mod.name}:{st.name}.{s.name}" in dead:
+                        continue
                     fi = FunctionInfo(s.name, f"{ci.qualname}.{s.name}", mod, ci, s)
                     ci.methods[s.name] = fi
                     self._register_function(fi)
